@@ -3,6 +3,7 @@
 -/
 import Csvq.Model.Cursor
 import Csvq.Gen.CursorFetch
+import Csvq.Gen.CursorOps
 namespace Csvq.Cursor
 open Csvq
 
@@ -82,6 +83,33 @@ open Gen.CursorFetch in
 def interpCount : CountOut → Except Err Int
   | .closedError => .error .closed
   | .value n => .ok n
+
+/-- the fields of a cursor as the Go code sees them -/
+def CState.viewNil {α} : CState α → Bool
+  | .closed => true
+  | .opened _ _ _ => false
+
+/-- Close leaves index = 0 in a closed cursor; the value is unobservable (every reader checks view == nil first) -/
+def CState.indexField {α} : CState α → Int
+  | .closed => 0
+  | .opened _ i _ => i
+
+def CState.fetchedField {α} : CState α → Bool
+  | .closed => false
+  | .opened _ _ f => f
+
+open Gen.CursorOps in
+/-- read the outcome of a generated state function back as a model result; `rows`: the view assigned by
+    `c.view = view` (the query result); `none`: an error the model has no cursor for (pseudo cursors, a failing query) -/
+def interpState {α} (rows : List α) : StateOut → Option (Except Err (CState α))
+  | .err "NewCursorOpenError" => some (.error .alreadyOpen)
+  | .err _ => none
+  | .ok true _ _ => some (.ok .closed)
+  | .ok false i f => some (.ok (.opened rows i f))
+
+def exceptToOption {ε β} : Except ε β → Option β
+  | .ok b => some b
+  | .error _ => none
 
 /-! ## arithmetic -/
 
